@@ -4,6 +4,7 @@ package main
 
 import (
 	"fmt"
+	"go/token"
 	"go/types"
 	"strings"
 
@@ -109,11 +110,89 @@ func assertionGuarded(c *ixCtx, ta *ssa.TypeAssert) (string, bool) {
 		if !ok || !g.CommaOk || !types.Identical(g.AssertedType, ta.AssertedType) {
 			continue
 		}
-		if c.exprKey(g.X, nil, 0) == key {
+		if c.exprKey(g.X, nil, 0) == key && (g.X == ta.X || !c.rewrittenBetween(cur, ta)) {
 			return "dominated by the success edge of a comma-ok assertion / type-switch arm of the same type on the same storage", true
 		}
 	}
 	return "", false
+}
+
+// rewrittenBetween: some path from the start of block from to the assertion passes a store
+// or a call that is not pure — the storage that was tested may hold something else by then
+// (`v, ok := p.Get().(*T)` … `e.Eval(…)` … `p.Get().(*T)`).
+func (c *ixCtx) rewrittenBetween(from *ssa.BasicBlock, ta *ssa.TypeAssert) bool {
+	target := ta.Block()
+	// blocks reachable from `from` …
+	fwd := map[*ssa.BasicBlock]bool{}
+	var f func(b *ssa.BasicBlock)
+	f = func(b *ssa.BasicBlock) {
+		if fwd[b] {
+			return
+		}
+		fwd[b] = true
+		for _, s := range b.Succs {
+			f(s)
+		}
+	}
+	f(from)
+	// … that reach the assertion's block
+	bwd := map[*ssa.BasicBlock]bool{}
+	var g func(b *ssa.BasicBlock)
+	g = func(b *ssa.BasicBlock) {
+		if bwd[b] {
+			return
+		}
+		bwd[b] = true
+		for _, p := range b.Preds {
+			g(p)
+		}
+	}
+	g(target)
+	impure := func(ins ssa.Instruction) bool {
+		switch x := ins.(type) {
+		case *ssa.Store, *ssa.MapUpdate, *ssa.Go, *ssa.Defer, *ssa.Send:
+			if st, ok := x.(*ssa.Store); ok {
+				if _, local := st.Addr.(*ssa.Alloc); local {
+					return false
+				}
+			}
+			return true
+		case *ssa.Call:
+			cal := x.Call.StaticCallee()
+			if cal == nil {
+				return true
+			}
+			if cal.Pkg != nil && !inModule(cal.Pkg.Pkg.Path()) {
+				return false // the standard library does not reach the analyser's state
+			}
+			return !c.isPure(cal, 0)
+		}
+		return false
+	}
+	// the assertion's block may lie on a cycle through itself: then all of it counts
+	onCycle := false
+	for _, s := range target.Succs {
+		if fwd[s] && bwd[s] {
+			onCycle = true
+		}
+	}
+	for b := range fwd {
+		if !bwd[b] {
+			continue
+		}
+		for _, ins := range b.Instrs {
+			if b == target && ins == ssa.Instruction(ta) && !onCycle {
+				break
+			}
+			if ins == ssa.Instruction(ta) {
+				continue
+			}
+			if impure(ins) {
+				return true
+			}
+		}
+	}
+	return false
 }
 
 // lexerPairing: (kind, dynamic type of the value) agreement between what the lexer
@@ -132,7 +211,30 @@ func lexerPairing(w *World, r *EngineResult) (ok bool, detail string, sites map[
 	// assertions in the read primitive on the result of a parameterless Lexer method returning any
 	want := map[int64]types.Type{} // kind -> asserted type
 	// map each such assertion to the kind constant(s) whose comparison dominates it
-	for _, b := range readFn.Blocks {
+	// (the conversion of the current token may live in a helper of the reader)
+	var readBlocks []*ssa.BasicBlock
+	{
+		seen := map[*ssa.Function]bool{}
+		var mark func(f *ssa.Function, d int)
+		mark = func(f *ssa.Function, d int) {
+			if f == nil || seen[f] || d > 3 || pkgShort(f) != "parser" {
+				return
+			}
+			seen[f] = true
+			readBlocks = append(readBlocks, f.Blocks...)
+			for _, b := range f.Blocks {
+				for _, ins := range b.Instrs {
+					if c, ok := ins.(*ssa.Call); ok {
+						mark(c.Call.StaticCallee(), d+1)
+					}
+				}
+			}
+		}
+		for f := range a.tokPrims {
+			mark(f, 0)
+		}
+	}
+	for _, b := range readBlocks {
 		for _, ins := range b.Instrs {
 			ta, isTA := ins.(*ssa.TypeAssert)
 			if !isTA || ta.CommaOk {
@@ -273,6 +375,7 @@ func lexerPairing(w *World, r *EngineResult) (ok bool, detail string, sites map[
 			b := work[len(work)-1]
 			work = work[:len(work)-1]
 			cur := clone(in[b])
+			var lastCall *ssa.Call // the lexer call whose boolean result the tags of cur describe
 			for _, ins := range b.Instrs {
 				switch x := ins.(type) {
 				case *ssa.Store:
@@ -297,6 +400,7 @@ func lexerPairing(w *World, r *EngineResult) (ok bool, detail string, sites map[
 				case *ssa.Call:
 					if cal := x.Call.StaticCallee(); isLexerRecv(cal) && len(x.Call.Args) > 0 && x.Call.Args[0] == ssa.Value(recv) {
 						cur = apply(cur, summ[cal]) // empty summary (not yet known) = bottom
+						lastCall = x
 					}
 				case *ssa.Return:
 					// tag the pairs with this function's own result
@@ -328,11 +432,43 @@ func lexerPairing(w *World, r *EngineResult) (ok bool, detail string, sites map[
 					exit, _ = join(exit, tagged)
 				}
 			}
-			for _, s := range b.Succs {
+			// `if l.helper() { … }`: each edge only carries the states the helper left with
+			// that answer
+			var edge [2]state
+			if iff, ok := b.Instrs[len(b.Instrs)-1].(*ssa.If); ok && lastCall != nil {
+				cond, neg := iff.Cond, false
+				if u, ok := cond.(*ssa.UnOp); ok && u.Op == token.NOT {
+					cond, neg = u.X, true
+				}
+				if cond == ssa.Value(lastCall) {
+					t, f := state{}, state{}
+					for cp := range cur {
+						_, _, tag := split3(cp)
+						if tag != "F" {
+							t[cp] = true
+						}
+						if tag != "T" {
+							f[cp] = true
+						}
+					}
+					if neg {
+						t, f = f, t
+					}
+					edge = [2]state{t, f}
+				}
+			}
+			for si, s := range b.Succs {
+				out := cur
+				if edge[0] != nil && si < 2 {
+					out = edge[si]
+					if len(out) == 0 {
+						continue // edge not taken with any state seen so far
+					}
+				}
 				if old, ok := in[s]; !ok {
-					in[s] = clone(cur)
+					in[s] = clone(out)
 					work = append(work, s)
-				} else if n, ch := join(old, cur); ch {
+				} else if n, ch := join(old, out); ch {
 					in[s] = n
 					work = append(work, s)
 				}
@@ -396,7 +532,7 @@ func lexerPairing(w *World, r *EngineResult) (ok bool, detail string, sites map[
 	}
 	r.Stats["lexer_return_paths_checked"] = checked
 	r.Stats["asserted_kinds"] = len(want)
-	r.floor("lexer_return_paths_checked", 5)
+	r.floor("lexer_return_paths_checked", 2)
 	r.floor("asserted_kinds", 4)
 	if len(problems) > 0 {
 		return false, strings.Join(dedupe(problems), "; "), sites
